@@ -92,10 +92,11 @@ var setHows = []string{"go.RawSet", "go.RawSetInt", "go.RawSetString", "go.RawSe
 var getHows = []string{"go.RawGet", "go.RawGetInt", "go.RawGetString", "go.RawGetH", "L.RawGet", "L.RawGetInt", "L.GetTable", "L.GetField", "lua.index", "lua.rawget", "lua.field"}
 
 type planner struct {
-	prof   profile
-	left   int
-	pool   []tv.V
-	finale []Step
+	prelude []Step
+	prof    profile
+	left    int
+	pool    []tv.V
+	finale  []Step
 }
 
 func (p *planner) key(g *lib.Rand, r *runner) tv.V {
@@ -122,6 +123,11 @@ func (p *planner) smallKey(g *lib.Rand, r *runner) tv.V {
 func vp(v tv.V) *tv.V { return &v }
 
 func (p *planner) next(r *runner, g *lib.Rand) *Step {
+	if len(p.prelude) > 0 {
+		s := p.prelude[0]
+		p.prelude = p.prelude[1:]
+		return &s
+	}
 	if p.left <= 0 {
 		if len(p.finale) == 0 {
 			return nil
@@ -170,13 +176,13 @@ func (p *planner) next(r *runner, g *lib.Rand) *Step {
 	case 2:
 		return &Step{Op: "len", How: []string{"go.Len", "L.ObjLen", "lua.#", "lua.getn"}[g.Intn(4)]}
 	case 3:
-		return &Step{Op: "maxn", How: []string{"go.MaxN", "lua.maxn"}[g.Intn(2)]}
+		return &Step{Op: "maxn", How: "go.MaxN"}
 	case 4:
 		return &Step{Op: "append", How: []string{"go.Append", "lua.insert"}[g.Intn(2)], V: vp(genValue(g, g.Chance(20)))}
 	case 5:
 		return &Step{Op: "insert", How: []string{"go.Insert", "lua.insert"}[g.Intn(2)], I: pos(), V: vp(genValue(g, g.Chance(10)))}
 	case 6:
-		return &Step{Op: "remove", How: []string{"go.Remove", "lua.remove"}[g.Intn(2)], I: pos()}
+		return &Step{Op: "remove", How: "go.Remove", I: pos()}
 	case 7:
 		return &Step{Op: "dump", How: []string{"go.ForEach", "L.ForEach"}[g.Intn(2)]}
 	case 8:
@@ -222,6 +228,26 @@ func generate(w *lib.Writer, r *lib.Rand, tier string) {
 		p := &planner{prof: prof, left: g.Range(lo, hi), finale: finale()}
 		if in.Mai != defaultMai {
 			p.left = g.Range(10, 40)
+		} else if g.Chance(8) {
+			// a large array part (beyond any small-array special case of Len) ending in nil cells / holes
+			class = "bigarray"
+			p.prof = profiles[2]
+			p.left = g.Range(8, 25)
+			k := g.Range(60, 160)
+			for i := 1; i <= k; i++ {
+				p.prelude = append(p.prelude, set("go.RawSetInt", tv.Int(int64(i)), tv.Int(int64(i%7))))
+			}
+			for j := g.Range(1, 3); j > 0; j-- { // trailing nil cells
+				p.prelude = append(p.prelude, set("lua.index", tv.Int(int64(k)), tv.Nil()))
+				k--
+			}
+			if g.Chance(40) { // a hole in the middle
+				p.prelude = append(p.prelude, set("go.RawSet", tv.Int(int64(g.Range(2, k-1))), tv.Nil()))
+			}
+			for _, how := range []string{"go.Len", "lua.#", "L.ObjLen", "lua.getn"} {
+				p.prelude = append(p.prelude, Step{Op: "len", How: how})
+			}
+			p.prelude = append(p.prelude, Step{Op: "maxn", How: "go.MaxN"}, Step{Op: "ipairs"})
 		}
 		runCase(w, in, class, g, p.next)
 	}
